@@ -6,7 +6,7 @@ mutate/unlink files. Does not decide: what recovery does with the bytes (value l
 import re
 
 from tmpl import (order_before, follows, done_sites, start_sites, gate_false_targets, gate_true_targets, who, site, suffix,
-                  flows_from, local_defs)
+                  flows_from, local_defs, origin_locals)
 
 SEC = 'storage::secondary::'
 COMMIT_INNER = SEC + 'transaction::SecondaryTransaction::commit_inner::{closure#0}'
@@ -279,6 +279,7 @@ def run(ctx):
     OWN = {
         'remove_dir_all': {SEC + 'version_manager::VersionManager::do_vacuum',
                            SEC + 'storage::<impl storage::secondary::SecondaryStorage>::bootstrap'},
+        'remove_file': {SEC + 'storage::<impl storage::secondary::SecondaryStorage>::bootstrap'},   # boot vacuum of unlisted DV files (R7)
         'rename': {SEC + 'version_manager::VersionManager::rewrite_changes'},
         'truncate': {SEC + 'version_manager::VersionManager::rewrite_changes'},
     }
@@ -372,3 +373,43 @@ def rule_r5(ctx, prog):
         ctx.ob(R5, 'bootstrap·membership-test≺unlink', bool(ck) and b.dominated_by_any(set(ck), c.bb),
                f'removal (block {c.bb}) must be dominated by a contains_key test on the row-sets to open (blocks {ck})',
                [site(b, c.bb)])
+
+    # R7 ----------------------------------------------------------------------------------------------
+    R7 = 'C04-R7'
+    ctx.rule(R7, 'no stale file can collide with a re-issued id: the row-set and DV id generators restart from the live manifest '
+                 'entries (C03-R3), so at boot every delete-vector file that no live AddDV entry names is unlinked -- bootstrap lists the '
+                 'dv directory (a second read_dir), and removes a file found there (path from DirEntry::path) under a membership '
+                 'test against the very map the AddDV arm of the replay fills')
+    MANOP_ = 'storage::secondary::manifest::ManifestOperation'
+    rf = [c for c in b.calls if re.search(r'fs::remove_file$', c.fn or '')]
+    rd = done_sites(prog, b, 'tokio::fs::read_dir')
+    ctx.ob(R7, 'bootstrap·lists-dv-directory', len(rd) >= 2, f'read_dir sites in bootstrap: {rd} (row-set directory and dv directory)')
+    sw = [(i, bl['term']) for i, bl in enumerate(b.blocks) if bl['term']['k'] == 'switch' and bl['term'].get('adt') == MANOP_]
+    dv_map = set()
+    if sw:
+        i, t = sw[0]
+        arms = {t['variants'][v]: tgt for v, tgt in t['targets'] if v in t.get('variants', {})}
+        if 'AddDV' in arms:
+            others = {tgt for vv, tgt in arms.items() if vv != 'AddDV'} | {i}
+            region = b.reachable_from([arms['AddDV']], avoid=others)
+            for c in b.calls:
+                if c.bb in region and re.search(r'HashMap::<.*>::insert$', c.name or '') and c.args and c.args[0]['k'] != 'const':
+                    dv_map |= {l for l in origin_locals(b, c.args[0]['pl']['l'], depth=4) if 'HashMap' in b.local_ty(l) and not b.local_ty(l).startswith('&')}
+    if ctx.anchor(R7, 'bootstrap: map filled by the AddDV arm', dv_map):
+        if not rf:
+            ctx.ob(R7, 'bootstrap·unlinks-unlisted-dv-files', False, 'bootstrap never removes a file: stale DV files survive every reopen',
+                   [site(b, 0)],
+                   what='delete-vector files that the manifest no longer mentions survive a reopen while their ids are handed out again: '
+                        'a later DELETE fails with AlreadyExists')
+        for c in rf:
+            def from_entry(kind, payload, bb):
+                return kind == 'call' and (payload.get('fn') or '').endswith('tokio::fs::DirEntry::path')
+            enumerated = bool(c.args and c.args[0]['k'] != 'const' and flows_from(b, c.args[0]['pl']['l'], from_entry, depth=6))
+            ck = [x for x in b.calls if re.search(r'HashMap::<.*>::contains_key$', x.name or '') and x.args and x.args[0]['k'] != 'const'
+                  and dv_map & origin_locals(b, x.args[0]['pl']['l'], depth=4)]
+            member = bool(ck) and b.dominated_by_any({x.bb for x in ck}, c.bb)
+            ctx.ob(R7, 'bootstrap·unlinks-unlisted-dv-files', enumerated and member,
+                   f'remove_file at block {c.bb}: path from DirEntry::path: {enumerated}; dominated by contains_key on the AddDV map '
+                   f'(blocks {[x.bb for x in ck]}): {member}', [site(b, c.bb)],
+                   what='delete-vector files that the manifest no longer mentions survive a reopen while their ids are handed out again: '
+                        'a later DELETE fails with AlreadyExists')
